@@ -710,4 +710,83 @@ Proof.
   destruct k as [|k]; [exact Hall|]. destruct Hok as [Ho Hok]. simpl. apply IH; [apply agent_step_keeps; assumption|exact Hok].
 Qed.
 
+(* ---- bind execution over a batch (BindModel.flow_batch) ---- *)
+
+(* the resyncs of one phase, as operations of the agent history *)
+Definition flow_ops (fails : list positive) (pending : list (positive * positive)) : list agent_op :=
+  map (fun p => AOpEv (EvUnbind (fst p) (snd p))) (List.filter (fun p => bool_decide (fst p ∈ fails)) pending).
+
+Lemma flow_phase_is_fold tasks fails pending : forall ns,
+  fold_left (flow_unbind eps tasks fails) pending ns = fold_left (agent_step tasks) (flow_ops fails pending) ns.
+Proof.
+  induction pending as [|p l IH]; intros ns; [reflexivity|].
+  simpl. unfold flow_ops. simpl. unfold flow_unbind at 2. destruct (bool_decide (p.1 ∈ fails)); simpl; apply IH.
+Qed.
+
+(* the batch is the fold of single-context steps: first the failed pre-binds, in batch order, then
+   the bindings the binder reported as failed, in batch order -- and nothing else *)
+Theorem flow_batch_is_fold tasks pf bf ns pending :
+  fst (flow_batch eps tasks pf bf ns pending) =
+  fold_left (agent_step tasks) (flow_ops pf pending ++ flow_ops bf (flow_pass pf pending)) ns.
+Proof. unfold flow_batch. simpl. rewrite fold_left_app, !flow_phase_is_fold. reflexivity. Qed.
+
+Lemma flow_ops_ok tasks fails pending : forall ns, agent_ops_ok tasks ns (flow_ops fails pending).
+Proof.
+  unfold flow_ops. induction (List.filter _ pending) as [|p l IH]; intros ns; simpl; [exact I|]. split; [exact I|apply IH].
+Qed.
+
+Lemma agent_ops_ok_app tasks l1 : forall ns l2,
+  agent_ops_ok tasks ns l1 -> agent_ops_ok tasks (fold_left (agent_step tasks) l1 ns) l2 -> agent_ops_ok tasks ns (l1 ++ l2).
+Proof.
+  induction l1 as [|o l IH]; intros ns l2 H1 H2; [exact H2|]. destruct H1 as [Ho H1]. simpl. split; [exact Ho|apply IH; assumption].
+Qed.
+
+(* whatever the pre-binders and the binder answer, a batch keeps every node's ledger sound *)
+Theorem flow_batch_safe tasks pf bf ns pending :
+  nodes_all bnode_ok ns -> nodes_all bnode_ok (fst (flow_batch eps tasks pf bf ns pending)).
+Proof.
+  intros Hall. rewrite flow_batch_is_fold.
+  set (l := flow_ops pf pending ++ flow_ops bf (flow_pass pf pending)).
+  rewrite <- (firstn_all l). apply agent_events_safe; [exact Hall|].
+  apply agent_ops_ok_app; apply flow_ops_ok.
+Qed.
+
+Definition on_ledger (ns : gmap positive node) (tid nid : positive) : option task :=
+  match ns !! nid with Some n => n_tasks n !! tid | None => None end.
+
+Lemma flow_unbind_keeps_other tasks fails ns p tid nid :
+  tid ∉ fails -> on_ledger (flow_unbind eps tasks fails ns p) tid nid = on_ledger ns tid nid.
+Proof.
+  intros Hnf. unfold flow_unbind. case_bool_decide as Hin; [|reflexivity].
+  assert (Hne : p.1 <> tid) by (intros Heq; rewrite Heq in Hin; contradiction).
+  simpl. destruct (ns !! p.2) as [n|] eqn:E; [|reflexivity]. unfold on_ledger.
+  destruct (base.decide (p.2 = nid)) as [Heq|Hn].
+  - subst nid. rewrite lookup_insert, E, node_remove_tasks. rewrite lookup_delete_ne by exact Hne. reflexivity.
+  - rewrite lookup_insert_ne by exact Hn. reflexivity.
+Qed.
+
+(* the mechanism: a context whose PreBind and whose Binding both succeeded -- whatever happened to the
+   other contexts of its batch -- is on its node's ledger after the batch exactly as before *)
+Theorem flow_batch_keeps_bound tasks pf bf ns pending tid nid :
+  tid ∉ pf -> tid ∉ bf ->
+  on_ledger (fst (flow_batch eps tasks pf bf ns pending)) tid nid = on_ledger ns tid nid.
+Proof.
+  intros H1 H2. unfold flow_batch. simpl.
+  assert (Hph : forall fails l ns0, tid ∉ fails ->
+    on_ledger (fold_left (flow_unbind eps tasks fails) l ns0) tid nid = on_ledger ns0 tid nid).
+  { intros fails l. induction l as [|p l IH]; intros ns0 Hf; [reflexivity|]. simpl. rewrite IH by exact Hf.
+    apply flow_unbind_keeps_other. exact Hf. }
+  rewrite Hph by exact H2. apply Hph. exact H1.
+Qed.
+
+(* and it is among the contexts reported bound *)
+Lemma flow_batch_reports_bound tasks pf bf ns pending tid nid :
+  (tid, nid) ∈ pending -> tid ∉ pf -> tid ∉ bf -> (tid, nid) ∈ snd (flow_batch eps tasks pf bf ns pending).
+Proof.
+  intros Hin H1 H2. unfold flow_batch, flow_pass. simpl.
+  apply elem_of_list_In. apply filter_In. split.
+  - apply filter_In. split; [apply elem_of_list_In; exact Hin|]. simpl. rewrite bool_decide_eq_false_2 by exact H1. reflexivity.
+  - simpl. rewrite bool_decide_eq_false_2 by exact H2. reflexivity.
+Qed.
+
 End Events.
